@@ -5,7 +5,7 @@ from framework import Issue
 from world import Item, drive, exc_name, make_source, asyncstdlib
 
 RULE = (
-    "item sequences of length 0..L over K distinct keys x operation sequences over {advance groupby, advance group i} "
+    "item sequences of length 0..L over K distinct keys x operation sequences over {advance groupby, advance group i, close group i} "
     "(exhaustive for small L and op count, then seeded random up to length 10 / 15 ops); key absent / sync / async; "
     "source kinds list / one-shot iterator / async generator / class-based async iterator. "
     "non-trivial = at least one key and one item delivered; distinct by case content"
@@ -79,6 +79,12 @@ def _ops_async(case):
                 k, g = res.value
                 outs.append(["key", key_out(k), len(groups)])
                 groups.append(g)
+        elif op[0] == "cls":
+            if op[1] >= len(groups):
+                outs.append(["nogroup"])
+                continue
+            res = drive(groups[op[1]].aclose())
+            outs.append(["closed"] if res.exc is None else ["exc", exc_name(res.exc)])
         else:
             if op[1] >= len(groups):
                 outs.append(["nogroup"])
@@ -117,9 +123,18 @@ def _ops_sync(case):
     gb = itertools.groupby(cnt) if skey is None else itertools.groupby(cnt, skey)
     groups, outs = [], []
     consumed = []
+    dropped = set()     # itertools groups cannot be closed: the consumer drops them and never advances them again
     for op in case["ops"]:
         consumed.append(None)
-        if op[0] == "adv":
+        if op[0] == "cls":
+            if op[1] >= len(groups):
+                outs.append(["nogroup"])
+                continue
+            dropped.add(op[1])
+            outs.append(["closed"])
+        elif op[0] == "grp" and op[1] in dropped:
+            outs.append(["stop"])
+        elif op[0] == "adv":
             try:
                 k, g = next(gb)
             except StopIteration:
@@ -160,6 +175,11 @@ def _valid(outs):
     return [["stop"] if o == ["nogroup"] else o for o in outs]
 
 
+def _valid_ops(ops, outs):
+    """model view: `cls` on a handle that does not exist is a no-op the machine reports as closed"""
+    return [(["closed"] if op[0] == "cls" else ["stop"]) if o == ["nogroup"] else o for op, o in zip(ops, outs)]
+
+
 def judge(case, obs, model):
     issues = []
     if obs["impl"] != obs["std"]:
@@ -178,9 +198,9 @@ def judge(case, obs, model):
         if "error" in model:
             issues.append(Issue("A", model))
         else:
-            if model["impl"] != _valid(obs["impl"]):
+            if model["impl"] != _valid_ops(case["ops"], obs["impl"]):
                 issues.append(Issue("A", {"impl": obs["impl"], "model": model["impl"]}))
-            if model["spec"] != _valid(obs["std"]):
+            if model["spec"] != _valid_ops(case["ops"], obs["std"]):
                 issues.append(Issue("B", {"itertools": obs["std"], "spec": model["spec"]}))
             if model["impl"] != model["spec"]:
                 issues.append(Issue("MS", model))
@@ -215,7 +235,7 @@ def model_ops(ops):
 
 
 def _op_seqs(maxlen, maxh):
-    alphabet = [["adv"]] + [["grp", i] for i in range(maxh)]
+    alphabet = [["adv"]] + [["grp", i] for i in range(maxh)] + [["cls", i] for i in range(min(maxh, 2))]
     for n in range(0, maxlen + 1):
         for seq in itertools.product(alphabet, repeat=n):
             seq = list(seq)
@@ -250,7 +270,7 @@ def cases(tier, rng):
                 nadv += 1
             else:
                 h = nadv - 1 if rng.random() < 0.6 else rng.randrange(nadv)
-                ops.append(["grp", h])
+                ops.append(["grp", h] if rng.random() < 0.85 else ["cls", h])
         case = {"keys": keys, "ops": ops, "key": rng.choice(keysm), "src": rng.choice(srcs)}
         if rng.random() < 0.3:
             case["kvals"] = rng.choice(KVALS[5:] if nk > 2 else KVALS)
